@@ -167,7 +167,14 @@ func ApplyFindings(obls []Obligation, fs []Finding, property string) {
 			if f.Status != "known" || f.Property != property {
 				continue
 			}
-			if f.Rule == o.Rule && f.Func == o.Func && f.Construct == o.Construct {
+			// the function of a finding may be given as "<package path>.*": the construct is found by its
+			// role, and a refactoring that moves it to another function of the package does not make it a
+			// different defect
+			funcOK := f.Func == o.Func
+			if strings.HasSuffix(f.Func, ".*") && strings.HasPrefix(o.Func, strings.TrimSuffix(f.Func, "*")) {
+				funcOK = true
+			}
+			if f.Rule == o.Rule && funcOK && f.Construct == o.Construct {
 				o.Status = Known
 				o.Detail = o.Detail + " [known finding " + f.ID + ": " + f.What + "]"
 			}
